@@ -212,6 +212,7 @@ pub fn profile_attrib(r: &mut Prng) -> GenCfg {
     c.max_depth = 2;
     c.w_in = [50, 30, 5, 5, 10];
     c.one_bit_inputs = 300;
+    c.list_virtuals = 150;
     if c.widths >= 2 {
         // wide inputs are C07/C10's subject; keep this monitor focused
         c.widths = 3;
@@ -237,6 +238,7 @@ pub fn c03(case_seed: u64, acc: &mut Acc) {
             let outs: Vec<usize> = (0..c.signals.len()).filter(|&i| c.signals[i].is_output()).collect();
             acc.tag_n("layout_strict_subset", (c.script.layout.len() < outs.len()) as u64);
             acc.tag_n("layout_empty", c.script.layout.is_empty() as u64);
+            acc.tag_n("virtual_signal_inside_the_given_signal_list", c.signals.iter().any(|s| matches!(s.kind, SigKind::Virtual(_))) as u64);
             acc.tag_n("layout_permuted", (c.script.layout.len() == outs.len() && c.script.layout != outs) as u64);
             let mut z = 0;
             let mut x = 0;
@@ -546,6 +548,7 @@ pub fn profile_binding() -> GenCfg {
     c.max_depth = 2;
     c.w_row = 60;
     c.n_declares = (0, 2);
+    c.list_virtuals = 150;
     c
 }
 
@@ -628,6 +631,7 @@ pub fn profile_virtual(r: &mut Prng) -> GenCfg {
     c.w_in = [45, 35, 3, 3, 14];
     c.one_bit_inputs = 300;
     c.header_drop = 120;
+    c.list_virtuals = 200;
     c
 }
 
@@ -830,7 +834,7 @@ pub fn c19(case_seed: u64, acc: &mut Acc) {
         }
     }
     // static iteration reports the same lines
-    if crate::scope::analyse(&case.program).output_reads.is_empty() && r.chance(300, 1000) {
+    if crate::scope::test_output_reads(&case.program, &case.signals).is_empty() && r.chance(300, 1000) {
         let (_, parsed) = parse(&ran.pr.text);
         if let Some(p) = parsed {
             if let (_, Some(tc)) = bind(p, &case.signals) {
@@ -847,4 +851,169 @@ pub fn c19(case_seed: u64, acc: &mut Acc) {
             }
         }
     }
+}
+
+
+// ----------------------------------------------------------------------------------- fixture anchor
+
+/// Anchors the semantics of C / while / repeat / output reads to a physical meaning: the repo's
+/// own Counter.dig tests are run against a 10-line behavioural model of tests/data/Counter.v.
+/// Every checked entry of `Static` and `Dynamic` must pass in the crate's run, the hand-built
+/// models of the two programs must give the same histories in the reference interpreter, and
+/// `Failing` must fail.
+pub fn fixture_counter(acc: &mut Acc) -> Value {
+    use digital_test_runner::dig;
+    let Ok(text) = std::fs::read_to_string("/repo/tests/data/Counter.dig") else {
+        acc.tag("fixture_Counter.dig_not_readable");
+        return json!({"fixture": "not readable"});
+    };
+    let file = match guarded(|| dig::File::parse(&text)) {
+        Ok(Ok(f)) => f,
+        other => {
+            acc.violation(0, "fixture", Finding::new("fixture-does-not-load", format!("{:?}", other.map(|r| r.map(|_| ()).map_err(|e| e.to_string())))), json!(null));
+            return json!(null);
+        }
+    };
+    let sigs: Vec<Sig> = file
+        .signals
+        .iter()
+        .map(|s| Sig {
+            name: s.name.clone(),
+            bits: s.bits,
+            kind: match &s.typ {
+                digital_test_runner::SignalType::Input { default } => SigKind::In(from_in(*default)),
+                digital_test_runner::SignalType::Bidirectional { default } => SigKind::Bidir(from_in(*default)),
+                _ => SigKind::Out,
+            },
+        })
+        .collect();
+    let idx = |n: &str| sigs.iter().position(|s| s.name == n);
+    let (Some(clk), Some(rst), Some(out), Some(tc)) = (idx("CLK"), idx("RESET"), idx("OUT"), idx("TC")) else {
+        acc.violation(0, "fixture", Finding::new("fixture-signals", format!("{:?}", sigs)), json!(null));
+        return json!(null);
+    };
+    let mut checked = 0u64;
+    let mut report = vec![];
+    for over in [false, true] {
+        let script = Script {
+            layout: vec![out, tc],
+            values: ValueFn::Counter { clk, rst: Some(rst), out, tc: Some(tc), modulus: 10, init: 11, mask: 15 },
+            faults: vec![],
+            override_write: over,
+        };
+        let num = |v: i64| Expr::Num(v, Radix::Dec);
+        let id = |n: &str| Expr::Ident(n.to_string());
+        let bin = |o: BinOp, a: Expr, b: Expr| Expr::Bin(o, Box::new(a), Box::new(b));
+        let header: Vec<String> = ["CLK", "RESET", "OUT", "TC"].iter().map(|s| s.to_string()).collect();
+        let models: Vec<(&str, Vec<Item>, bool)> = vec![
+            (
+                "Static",
+                vec![
+                    Item::Blank,
+                    Item::Row(1, vec![Entry::C(false), Entry::Lit(1, Radix::Dec), Entry::Lit(0, Radix::Dec), Entry::Lit(0, Radix::Dec)]),
+                    Item::Loop(
+                        "n".into(),
+                        num(20),
+                        vec![
+                            Item::Let("out".into(), bin(BinOp::Rem, Expr::Group(Box::new(bin(BinOp::Add, id("n"), num(1)))), num(10))),
+                            Item::Row(2, vec![Entry::C(false), Entry::Lit(0, Radix::Dec), Entry::Paren(id("out")), Entry::Paren(bin(BinOp::Eq, id("out"), num(9)))]),
+                        ],
+                    ),
+                ],
+                true,
+            ),
+            (
+                "Dynamic",
+                vec![
+                    Item::Blank,
+                    Item::Row(1, vec![Entry::Lit(0, Radix::Dec), Entry::Lit(0, Radix::Dec), Entry::X(false), Entry::X(false)]),
+                    Item::While(bin(BinOp::Ne, id("OUT"), num(0)), vec![Item::Row(2, vec![Entry::C(false), Entry::Lit(0, Radix::Dec), Entry::X(false), Entry::X(false)])]),
+                    Item::Blank,
+                    Item::Row(3, vec![Entry::Lit(0, Radix::Dec), Entry::Lit(0, Radix::Dec), Entry::Lit(0, Radix::Dec), Entry::Lit(0, Radix::Dec)]),
+                    Item::Repeat(
+                        4,
+                        num(20),
+                        vec![
+                            Entry::C(false),
+                            Entry::Lit(0, Radix::Dec),
+                            Entry::Paren(bin(BinOp::Rem, Expr::Group(Box::new(bin(BinOp::Add, id("OUT"), num(1)))), num(10))),
+                            Entry::Paren(bin(BinOp::Eq, id("OUT"), num(8))),
+                        ],
+                    ),
+                ],
+                true,
+            ),
+        ];
+        for (name, items, must_pass) in models {
+            // the crate on the fixture's own source
+            let tc_ = match guarded(|| file.load_test_by_name(name)) {
+                Ok(Ok(t)) => t,
+                other => {
+                    acc.violation(0, "fixture", Finding::new("fixture-test-does-not-load", format!("{name}: {:?}", other.map(|r| r.map(|_| ()).map_err(|e| e.to_string())))), json!(null));
+                    continue;
+                }
+            };
+            let run = run_bound(&tc_, &sigs, &script, &RunOpts { max_steps: 400, probe_after_end: 0, stop_at_error: true, seed: Some(1), continue_on: None });
+            acc.evaluations += 1;
+            let mut fails = 0;
+            let mut rows = 0;
+            for st in &run.3 {
+                match &st.item {
+                    RealItem::Row(r) => {
+                        rows += 1;
+                        for o in &r.outputs {
+                            if o.4 {
+                                checked += 1;
+                                if !o.3 {
+                                    fails += 1;
+                                }
+                            }
+                        }
+                    }
+                    RealItem::End => {}
+                    other => acc.violation(0, "fixture", Finding::new("fixture-item", format!("{name}: {other:?}")), json!(null)),
+                }
+            }
+            if must_pass && fails > 0 {
+                acc.violation(0, "fixture", Finding::new("fixture-counter-fails", format!("test {name} of Counter.dig against the behavioural model of Counter.v: {fails} checked entries fail")), json!(null));
+            }
+            // the reference on the hand-built model of the same program must prescribe the same history
+            let case = Case {
+                program: Program { header: header.clone(), items },
+                signals: sigs.clone(),
+                script: script.clone(),
+                layout_opts: crate::pp::Layout::plain(),
+                rng_seed: 1,
+            };
+            if let Some(ran) = standard_run(&case, acc, None) {
+                let f = first_some(vec![accepted(&ran.real), diff_items(&ran.pr, &ran.rf, &ran.real, Aspects::all()), protocol(&ran.rf, &ran.real)]);
+                if let Some(f) = f {
+                    acc.violation(0, "fixture", f, case_json(&case, &ran.pr));
+                }
+                // and it is the same history as the fixture's own text produced
+                let a: Vec<&RealItem> = run.3.iter().map(|s| &s.item).collect();
+                let b: Vec<&RealItem> = ran.real.steps.iter().map(|s| &s.item).take(a.len()).collect();
+                let same = a.len() <= ran.real.steps.len()
+                    && a.iter().zip(&b).all(|(x, y)| match (x, y) {
+                        (RealItem::Row(p), RealItem::Row(q)) => p.inputs == q.inputs && p.outputs == q.outputs,
+                        (p, q) => p == q,
+                    });
+                if !same {
+                    acc.violation(0, "fixture", Finding::new("fixture-model-differs", format!("hand-built model of {name} and the fixture text give different histories")), json!(null));
+                }
+            }
+            report.push(json!({"test": name, "driver_overrides_write_input": over, "rows": rows, "failing_entries": fails}));
+        }
+        // the Failing test must fail
+        if let Ok(Ok(t)) = guarded(|| file.load_test_by_name("Failing")) {
+            let run = run_bound(&t, &sigs, &script, &RunOpts { max_steps: 400, probe_after_end: 0, stop_at_error: true, seed: Some(1), continue_on: None });
+            let fails: usize = run.3.iter().map(|s| if let RealItem::Row(r) = &s.item { r.failing.len() } else { 0 }).sum();
+            if fails == 0 {
+                acc.violation(0, "fixture", Finding::new("fixture-failing-passes", "test Failing of Counter.dig passes against the behavioural model"), json!(null));
+            }
+            report.push(json!({"test": "Failing", "failing_entries": fails}));
+        }
+    }
+    acc.event("fixture_checked_entries", checked);
+    json!({"counter_fixture": report})
 }
